@@ -10,13 +10,13 @@ from ..drivers import pool as pl
 OWN = "C13"
 
 
-def pooled_blocks(env, tier):
+def pooled_blocks(env, tier, own=OWN, only=None):
     """the same statement with the pool engaged: every block of the pooled result is judged against the contract"""
     rnd = random.Random(core.SEED + 13)
     env.srcdir = core.REPO / "src"
     for q in range(40 if tier == "quick" else 600):
-        kind = rnd.choice(["ccube", "xcube", "xcube"])
-        names = [rnd.choice(c16.CC_FUNCS)]
+        kind = rnd.choice(["ccube", "xcube", "xcube"]) if only is None else "ccube"
+        names = [rnd.choice(c16.CC_FUNCS) if only is None else only]
         case = pl.scaffold_case(env.gen, rnd, names[0])
         if case.fact is None:
             case.fact = env.gen.fact(case.n, K=rnd.choice([1, 2]), small=True)
@@ -26,7 +26,7 @@ def pooled_blocks(env, tier):
         for s in range(3):
             tr, outs, _ = pr.evaluate("pool", P=rnd.choice([2, 3, 4, 6, 8]), sched_seed=q * 7 + s, switch_prob=rnd.choice([0.05, 0.3]))
             if outs is not None:
-                c16.record_outputs(env, OWN, pr, outs)
+                c16.record_outputs(env, own, pr, outs)
 
 
 def run(chk, tier):
